@@ -87,11 +87,14 @@ pub fn gen_include_tree(r: &mut Rng) -> (Tree, String) {
             files.push((format!("{}/{}", d1, f), c));
         }
     }
-    // a `halt` inside an included file ends the whole run, not only that file
+    // a `halt` inside an included file ends the whole run, not only that file; what comes after a
+    // halt (includes too) is still parsed
     for (_, content) in files.iter_mut() {
         if r.chance(1, 10) {
             content.push_str("halt\n\n");
             content.push_str(&stmt(&mut id));
+        } else if r.chance(1, 12) {
+            *content = format!("halt\n\n{}", content);
         }
     }
     // root
@@ -236,6 +239,8 @@ pub fn gen_update_case(r: &mut Rng, small: bool) -> UpdateCase {
             }
         }
     }
+    // one case in twelve runs under a custom row validator that accepts everything
+    let accept_all = !small && r.chance(1, 12);
     UpdateCase {
         strict_cols: r.chance(1, 3),
         sep: r.pick(&[" ", "\t"]).to_string(),
@@ -244,9 +249,10 @@ pub fn gen_update_case(r: &mut Rng, small: bool) -> UpdateCase {
         tree: Tree { files, root: "root.slt".into() },
         db,
         crash_at: None,
-        tag: format!("update repr={}", representable),
+        tag: format!("update repr={} accept_all={}", representable, accept_all),
         representable,
         expect_final: None,
+        accept_all,
     }
 }
 
